@@ -24,8 +24,8 @@ RULE = ("mint: real dispensation BeginBlocker on the real keeper/bank, block hea
         "non-zero) by a replacing set starting at the cut / 1, 2, 5 blocks later, by a set [B, A, C] whose first period overtakes A and outlasts it, by "
         "the same overlapping set from the beginning, by switching rewards off and adding a period later; plus the F27 histories (tag ...midflight): an "
         "overlapping period listed AFTER the running one taking over when that one ends between two distribution blocks, and an accepted edit changing "
-        "the running period's own allocation / mod / end, preceded by two directed small-number histories of that kind; per-period totals kept per "
-        "(start,end,allocation,mod) of the period the keeper reports as current. "
+        "the running period's own allocation / mod / end, and a list that keeps the running period unchanged (same id) but puts an overlapping, earlier-started period ahead of it (the cut block a distribution block of that period), preceded by two directed small-number histories of that kind; per-period totals kept per "
+        "(start,end,allocation,mod) of the period that is current by the harness's own ledger of submitted lists (first period of the last accepted list covering the height). "
         "extreme period shapes (tag ...extreme; a third of the rwedits chains and two directed ones): lengths 2^61..2^64-1 (end = MaxInt64, MaxUint64, "
         "start+4e18-1, start+2^61, random 62-64 bit; start 0, 1, at / right after the current height), allocation = k*length + {-4..+4} (k = 1, small, "
         "random, maximal) or near 2^128-1, one pool of multiplier 1 so that the per-block bound floor(allocation/length)*mod is tight, first 6 blocks. "
